@@ -71,7 +71,7 @@ class World:
 
 
 # --------------------------------------------------------------- project ----
-EDITS = 12
+EDITS = 13
 
 
 def initial():
@@ -91,7 +91,8 @@ def apply_edit(st, e):
     elif e == 8: st['dep'] = not st['dep']
     elif e == 9: st['weak'] ^= 1
     elif e == 10: st['x'] ^= 1
-    elif e == 11: st['srcedit'] = st.get('srcedit', 0) + 1      # the user edits a file in the source workspace of lib
+    elif e == 11: st['srcedit'] = st.get('srcedit', 0) + 1      # the user adds a file to the source workspace of lib
+    elif e == 12: st['srcmod'] = st.get('srcmod', 0) + 1        # the user modifies a file the checkout script of lib wrote
     return st
 
 
@@ -266,16 +267,17 @@ async def fake_run(self, args, cwd, stdout=None, stderr=None, check=False, **kw)
     h.update(repr((spec.setupScript, spec.mainScript, sorted((k, v) for k, v in spec.env.items() if k != 'W'))).encode())
     for a in spec.args:
         h.update(read_out(a).encode())
-    if w.fault and w.fault[0] in ('fail', 'kill') and w.fault[1] == key:
+    if w.fault and w.fault[0] in ('fail', 'kill', 'sig') and w.fault[1] == key:
         with open(os.path.join(ws, 'partial.txt'), 'w') as f:
             f.write('half written output')
         if w.fault[0] == 'kill':
             w.crashed = True
             raise Crash()
+        rc = 1 if w.fault[0] == 'fail' else -9          # sig: the interpreter was killed by a signal (OOM killer, ...), Bob lives on
         w.fault = None
         if check:
-            raise BI.CmdFailedError('script', 1)
-        return Finished(1)
+            raise BI.CmdFailedError('script', rc)
+        return Finished(rc)
     sd = hashlib.sha1(repr((spec.setupScript, spec.mainScript)).encode()).hexdigest()
     res = os.path.join(ws, 'residue.txt')
     old = set()
@@ -399,6 +401,11 @@ def install():
             if getattr(self, '_BobState__asynchronous') == 0:
                 w.saves += 1
                 if w.fault and w.fault[0] == 'save' and w.saves == w.fault[1]:
+                    w.crashed = True
+                    raise Crash()
+                if w.fault and w.fault[0] == 'aftersave' and w.saves == w.fault[1]:
+                    # killed immediately AFTER this save reached the disk, before whatever the code does next
+                    orig_save(self)
                     w.crashed = True
                     raise Crash()
         return orig_save(self)
@@ -567,10 +574,14 @@ def history(edits, release, fault_inv, fault_kind, fault_arg):
             st = apply_edit(st, e)
             if e == 11:
                 user_edit(w, st, release, st['srcedit'])
+            if e == 12:
+                for ws in lib_sources(w.root):
+                    with open(os.path.join(ws, 'out.txt'), 'a') as f:
+                        f.write('scribbled by the user %d' % st['srcmod'])
             if idx == fault_inv:
                 w.audits = 0
                 w.fault = [('fail', STEP_KEYS[fault_arg % 8]), ('kill', STEP_KEYS[fault_arg % 8]), ('save', fault_arg + 1),
-                           ('audit', fault_arg + 1)][fault_kind]
+                           ('audit', fault_arg + 1), ('aftersave', fault_arg + 1), ('sig', STEP_KEYS[fault_arg % 8])][fault_kind]
                 o, outs, res = invoke(w, st, release)
                 w.fault = None
                 if o == 'ok':
@@ -1001,8 +1012,8 @@ def PLAN(tier):
     for e in range(EDITS):
         P.append(dict(fn='check_c01', shard=[e, 2 if q else 3], timeout=500 if q else 3000))
     for rel in (False, True):
-        for (fk, n, step) in ((0, 8, 4), (1, 8, 4), (2, 35 if q else 60, 5), (3, 8, 4)):
-            if q and rel and fk >= 2:
+        for (fk, n, step) in ((0, 8, 4), (1, 8, 4), (2, 35 if q else 60, 5), (3, 8, 4), (4, 35 if q else 60, 5), (5, 8, 4)):
+            if q and rel and fk in (2, 3, 4):
                 continue
             for lo in range(0, n, step):
                 P.append(dict(fn='check_c05', shard=[fk, lo, min(n, lo + step), rel], timeout=600 if q else 3000))
